@@ -83,7 +83,7 @@ def main():
                 results[c] = {"rc": rc, "violation_line": viol[0] if viol else None, "summary": summ[-1] if summ else o[-300:], "replay": rp,
                               "replay_file": (viol[0].split("replay=")[1].split()[0] if viol and "replay=" in viol[0] else None)}
         finally:
-            sh("git checkout -- .", cwd="/repo")
+            sh("git reset -q --hard HEAD", cwd="/repo")
         # keep the failing input as a corpus case of the check that found it (validated on the clean tree)
         for c, r in results.items():
             if r.get("replay_file") and isinstance(r.get("replay"), dict) and r["replay"].get("kind") == "failing-input":
